@@ -84,10 +84,17 @@ func (t *IterableType) IsAssignable(o px.Type, g px.Guard) bool {
 	var et px.Type
 	switch o := o.(type) {
 	case *ArrayType:
+		if o.size.max <= 0 {
+			// The only instance is the empty array: there is no element that t.typ must accept
+			return true
+		}
 		et = o.ElementType()
 	case *BinaryType:
 		et = NewIntegerType(0, 255)
 	case *HashType:
+		if o.size.max <= 0 {
+			return true
+		}
 		et = o.EntryType()
 	case *stringType, *vcStringType, *scStringType:
 		et = OneCharStringType
